@@ -225,8 +225,13 @@ def judge(ctx, case, obs, mouts):
     ctx.count("class:" + obs["dclass"])
     if kinds and kinds <= {"npbool"} and any(miss) and dtype is None:
         cls = "npbool-with-missing"
-    elif {"date", "datetime"} <= kinds and kinds <= {"date", "datetime", "npdt"} and any(miss) and dtype is None:
-        cls = "mixed-date-datetime-with-missing"
+    elif obs["dclass"] == "object" and dtype is None and any(miss) and \
+            ("str" in kinds or (kinds and kinds <= {"date", "datetime", "npdt"})):
+        # a typed missing value ("" or NaT) was substituted, but NumPy infers object for the mixture
+        cls = "mixed-object-with-typed-sentinel"
+    elif "npstr" in kinds and len(kinds) >= 2 and any(miss) and dtype is None:
+        # np.str_ is a str subclass but not the class str: "" is not chosen, yet the string dtype is
+        cls = "npstr-mixture-with-missing"
     else:
         cls = "other"
     if obs["ndim"] != 1:
